@@ -196,7 +196,10 @@ func usedGold(t vlib.TB, sub string, b []byte) {
 				return
 			}
 			out, err := P.MarshalBinary()
-			o.views = [][]byte{out}
+			// the value must also behave the same under arithmetic (auxiliary coordinates of the receiver must not leak)
+			dbl, _ := c.Double(P).MarshalBinary()
+			sum, _ := c.Add(P, c.Generator()).MarshalBinary()
+			o.views = [][]byte{out, dbl, sum}
 			o.flags = []bool{err == nil, c.IsOnCurve(P), P.IsIdentity()}
 			if freshVal != nil {
 				o.flags = append(o.flags, P.IsEqual(freshVal), freshVal.IsEqual(P))
@@ -494,7 +497,12 @@ func usedFourQ(t vlib.TB, sub string, b []byte) {
 			var out [32]byte
 			P.Marshal(&out)
 			x, y := fqToE2(&P.X), fqToE2(&P.Y)
-			o.views = [][]byte{out[:], x.A.Bytes(), x.B.Bytes(), y.A.Bytes(), y.B.Bytes()}
+			var g, sum fourq.Point
+			g.SetGenerator()
+			sum.Add(P, &g)
+			var so [32]byte
+			sum.Marshal(&so)
+			o.views = [][]byte{out[:], x.A.Bytes(), x.B.Bytes(), y.A.Bytes(), y.B.Bytes(), so[:]}
 			o.flags = []bool{P.IsOnCurve(), P.IsIdentity()}
 		})
 	}
